@@ -180,3 +180,19 @@ Definition rate_wiring_ok : bool :=
   | _ => false
   end &&
   Nat.eqb (List.length rate_parses) 2 && forallb parse_ok rate_parses.
+
+(* ---------------------------------------------------------------- the library the model describes (Gen/RateLib.v) *)
+From SX Require Import Gen.RateLib.
+
+(* Model/Limiter.v models go.uber.org/ratelimit v0.2.0 (content hash from go.sum); when the source is
+   present in the module cache, its defaults and the two configuration expressions are compared too *)
+Definition rate_lib_ok : bool :=
+  (ratelimit_version =? "v0.2.0") &&
+  (ratelimit_sum =? "h1:UQE2Bgi7p2B85uP5dC2bbRtig0C+OeNRnNEafLjsLPA=") &&
+  negb ratelimit_replaced &&
+  (if ratelimit_src_found then
+     (ratelimit_default_slack =? default_slack)%Z && (ratelimit_default_per =? "time.Second") &&
+     (ratelimit_new_impl =? "newAtomicBased") &&
+     (ratelimit_per_request_expr =? "config.per / time.Duration(rate)") &&
+     (ratelimit_max_slack_expr =? "-1 * time.Duration(config.slack) * perRequest")
+   else true).
